@@ -239,7 +239,7 @@ def run_reduce(case, gb=None):
     tr = {k: case[k] for k in ("op", "keys", "vals", "mask", "tf", "oo", "sort")}
     if op in ("var", "std"):
         tr["ddof"] = case.get("ddof", 1)
-    tr.update(emb=case["emb"], kenc=case["kenc"], nonull=int(emb.nonull), cfg={k: case.get(k) for k in ("T", "R", "kcont", "vcont", "mcont", "pre")})
+    tr.update(emb=case["emb"], kenc=case["kenc"], nonull=int(emb.nonull), cfg={k: case.get(k) for k in ("T", "R", "kcont", "vcont", "mcont", "pre", "nanull", "vname")})
     try:
         keyobj, encs = build_keys(case)
         tr["rank"], tr["seed"] = key_meta(case, encs)
